@@ -563,7 +563,10 @@ class ProofWorld(HistoryWorld):
     def _encode(self, roots, seed):
         rng = random.Random(seed)
         f = rng.choice([(0, 0, 0), (0, 1, 0), (1, 0, 0), (1, 1, 0), (1, 0, 1), (1, 1, 1)])
-        return refboc.encode(roots, has_idx=bool(f[0]), has_crc=bool(f[1]), has_cache_bits=bool(f[2]), order=refboc.random_topo_order(roots, rng))
+        order = refboc.random_topo_order(roots, rng)
+        # liteservers ship bags whose cells carry their stored hashes and depths (one per level present in the mask) as often as not
+        wh = True if rng.random() < 0.4 else None
+        return refboc.encode(roots, has_idx=bool(f[0]), has_crc=bool(f[1]), has_cache_bits=bool(f[2]), order=order, with_hashes=wh)
 
     def _deviate_tree(self, root, dev, ctx):
         """Apply one structural deviation below the proof root's child.  Returns new child or None if inapplicable."""
